@@ -581,3 +581,81 @@ def construction_may_fail(g, placeholders=True):
     except TooAmbiguous:
         return True
     return False
+
+
+# ---------------------------------------------------------------------------------------------------
+# prefix viability: is the input (positions 0..n) a prefix of a sentence?  (all non-terminals productive)
+
+class Viable:
+    """part(A, i): A =>* input[i:n] gamma  for some (possibly empty) gamma -- a second least fix-point on top of
+    the chart.  The grammar must be productive (every non-terminal derives some terminal string)."""
+
+    def __init__(self, g, E):
+        self.g, self.E = g, E
+        self.chart = Chart(g, E)
+        n = E.n
+        self.P = P = {A: [False] * (n + 1) for A in g.rules}
+        changed = True
+        while changed:
+            changed = False
+            for r in g.rules.values():
+                PA = P[r.name]
+                for i in range(n + 1):
+                    if not PA[i] and any(self.part_seq(seq, i) for seq, _ in r.alts):
+                        PA[i] = True
+                        changed = True
+
+    def at_end(self, i):
+        return self.E.n in self.E.reach[i]
+
+    def part_seq(self, seq, i):
+        if self.at_end(i):
+            return True
+        cur = {i}
+        for it in seq:
+            if any(self.part_item(it, p) for p in cur):
+                return True
+            nxt = set()
+            for p in cur:
+                nxt |= self.chart.item(it, p)
+            cur = nxt
+            if not cur:
+                return False
+        return any(self.at_end(p) for p in cur)
+
+    def part_item(self, it, i):
+        if self.at_end(i):
+            return True
+        k = it[0]
+        if k == 'ref':
+            return self.P[it[1]][i]
+        if k in ('tok', 'lit', 're'):
+            return any(self.at_end(j) for j in self.chart.item(it, i))
+        if k == 'opt':
+            return self.part_item(it[1], i)
+        if k in ('maybe', 'group'):
+            return any(self.part_seq(s, i) for s in it[1])
+        if k in ('star', 'plus', 'rep'):
+            x = it[1]
+            hi = it[3] if k == 'rep' else self.E.n + 2
+            cur, seen = {i}, set()
+            for _ in range(hi):
+                if any(self.part_item(x, p) for p in cur):
+                    return True
+                nxt = set()
+                for p in cur:
+                    nxt |= self.chart.item(x, p)
+                cur = nxt - seen
+                seen |= nxt
+                if not cur:
+                    break
+            return False
+        raise ValueError(it)
+
+    def viable(self):
+        return self.part_item(('ref', self.g.start), 0) or self.chart.accepts()
+
+
+def viable_tokens(g, toks):
+    """Is the terminal-key sequence a prefix of a sentence?"""
+    return Viable(g, Edges.tokens(g, toks)).viable()
